@@ -230,6 +230,12 @@ def op_table():
     def _(P, on):
         P.eg["Vertex"].NEIGHBOR_CACHING = bool(on % 2)
 
+    @reg("forget_stats", 1, "cache")
+    def _(P, _k):
+        # what un-pickling into a fresh interpreter looks like to the objects: their memo is there, the class-level statistics
+        # dictionary knows none of them (C05: "objects un-pickled into a fresh interpreter")
+        P.eg["Vertex"]._CACHE_STATS.clear()
+
     @reg("query_neighbors", 4, "query")
     def _(P, i, d, u, fl):
         v = P.vert(i)
@@ -334,7 +340,13 @@ def op_table():
         E = P.eg
         inner = {E["Vertex"]: E["DirectedEdge"]}
         rules = {E["Vertex"]: inner}
+        if k % 3 == 2:
+            rules, inner = {}, {}                      # an empty whitelist is a whitelist (nothing allowed), not "no whitelist"
+        elif k % 3 == 1 and deep % 2:
+            rules = {E["Vertex"]: inner, E["Universe"]: {}}
         L = E["UniverseLaws"](edge_whitelist=rules)
+        if L.edge_whitelist is None:
+            raise PropertyViolation("C19: a law set built with an edge_whitelist reads back None")
         want = {a: dict(b) for a, b in rules.items()}
         if deep % 2:
             inner[E["Universe"]] = E["UnDirectedEdge"]
@@ -356,13 +368,21 @@ def op_table():
         """C12: containers handed out by accessors are detached"""
         o = (P.V + P.U)[i % len(P.V + P.U)]
         before = observable(P)
-        r = [o.universes, P.U[0].vertices, list(o.links)][which % 3]
-        if isinstance(r, tuple):
-            raise PropertyViolation("unexpected")
-        r.append(P.V[0])
-        r.reverse()
-        r.clear()
-        if observable(P) != before:
+        uu = P.U[i % len(P.U)]
+        acc = [lambda: o.universes, lambda: uu.vertices, lambda: o.links, lambda: (P.L[i % len(P.L)].vertices if P.L else ())][which % 4]
+        want = list(acc())
+        r = acc()
+        if isinstance(r, list):
+            # length-preserving edits first (a snapshot memoised by length would not notice them), then size-changing ones
+            r.reverse()
+            if r:
+                r[0] = P.V[-1]
+            r.sort(key=id)
+            if not same_seq(list(acc()), want):
+                raise PropertyViolation("C12: a length-preserving edit of a list returned by an accessor shows in the next read")
+            r.append(P.V[0])
+            r.clear()
+        if not same_seq(list(acc()), want) or observable(P) != before:
             raise PropertyViolation("C12: mutating a list returned by an accessor changed the graph")
 
     @reg("mutate_ctor_argument", 3, "snapshot")
@@ -630,7 +650,26 @@ def op_table():
         for l in P.L:
             if not same_seq(l.vertices, old[id(l)][2]):
                 raise PropertyViolation(f"C11: {what} changed the ends of a pre-existing link")
-        # reading back: neighbors() of a key reproduces its row among the new links (forward direction)
+        # reading back: every listed pair shows in neighbors() / find_links (forward; both ways for an undirected type)
+        nbf, flf = P.mods["helpers"].neighbors, P.mods["helpers"].find_links
+        directed = issubclass(cls, E["DirectedEdge"])
+        if directed or issubclass(cls, E["UnDirectedEdge"]):
+            flag = E["Vertex"].NEIGHBOR_CACHING
+            for (a, b) in cells:
+                for caching in (False, flag):
+                    E["Vertex"].NEIGHBOR_CACHING = caching
+                    try:
+                        fw = nbf(a, 0)
+                        bw = nbf(b, 1)
+                        fl = flf(a, b)
+                    except (NotImplementedError, IndexError, AttributeError):
+                        continue
+                    finally:
+                        E["Vertex"].NEIGHBOR_CACHING = flag
+                    if not any(x is b for x in fw) or not any(x is a for x in bw) or not fl:
+                        raise PropertyViolation(f"C11: reading {what}'s result back, a listed pair is missing from neighbors() / find_links")
+                    if not directed and not any(x is a for x in nbf(b, 0)):
+                        raise PropertyViolation(f"C11: {what} with an undirected type: the symmetric entry is missing from neighbors()")
         P.L.extend(x for o in allo for x in o.links[len(oldlinks[id(o)]):] if not any(x is y for y in P.L))
         P.U.append(uni)
 
@@ -981,10 +1020,13 @@ ORACLES = {"C01": oracle_C01, "C02": oracle_C02, "C19": oracle_C19}
 def oracles_for(pid):
     if pid == "C05":
         return [oracle_C05]
+    if pid in ("C04", "C09"):
+        # the decision table holds with caching on as well: cached answers equal recomputed ones
+        return [ORACLES[p] for p in ("C01",)] + [oracle_C05]
     return [ORACLES[p] for p in ORACLES if p == pid or pid in ("C03", "C05", "C12")]
 GROUPS = {
     "C01": ("assoc", "explicit"), "C02": ("member",), "C03": ("assoc", "explicit", "member"), "C19": ("laws", "snapshot"),
-    "C04": ("assoc", "explicit", "query"), "C09": ("assoc", "explicit", "query"),
+    "C04": ("assoc", "explicit", "cache", "query"), "C09": ("assoc", "explicit", "cache", "query"),
     "C05": ("assoc", "explicit", "cache", "query"), "C12": ("assoc", "member", "laws", "cache", "query", "snapshot"),
     "C13": ("assoc", "explicit", "member", "render", "query"),
     "C16": ("assoc", "explicit", "member", "text"), "C17": ("singleton",), "C18": ("singleton",),
